@@ -257,3 +257,40 @@ Definition rrun R H c (x : rst) (h : list rop) : rst := fold_left (rnxt R H c) h
 Fixpoint rtrace R H c (x : rst) (h : list rop) : list robs :=
   match h with [] => [] | o :: h' => rout R H c x o :: rtrace R H c (rnxt R H c x o) h' end.
 Definition rsel_ops (h : list rop) : list op := flat_map (fun o => match o with RSel o => [o] | _ => [] end) h.
+
+(* ------------------------------------------------------------------ the metadata of the dispatch closure
+
+   dispatch_backend_method(name, method) copies __name__, __doc__, __module__, the signature and sets __wrapped__ = method,
+   where method = getattr(cls.current_backend(), name) evaluated ONCE, by the thread that runs use_dynamic_dispatch (at
+   import: the importing thread, backend = the default).  Following __wrapped__ (inspect.unwrap, functools conventions)
+   therefore calls the backend the closure was MADE with, not the caller's.  w_cls / w_top = made-with of the closures
+   installed on the manager class / bound at import in the top-level namespace; captured closures keep their own. *)
+Record wst := { w_sel : st; w_cls : inst; w_top : inst; w_caps : list inst }.
+Inductive wop :=
+| WSel (o : op)
+| WDynamic (t : tid)                  (* use_dynamic_dispatch(): new closures on the class *)
+| WCapture (t : tid) (top : bool)     (* f = tensorly.fn (top) / tensorly.backend.fn *)
+| WUnwrapCap (t : tid) (k : nat)      (* f.__wrapped__(...) for captured f number k *)
+| WUnwrap (t : tid) (top : bool)      (* tensorly.fn.__wrapped__(...) / tensorly.backend.fn.__wrapped__(...) *)
+| WCall (t : tid) (top : bool).       (* the dispatched call itself, for contrast *)
+Inductive wobs := WSelObs (o : obs) | WNone | WRan (b : inst) | WErr.
+
+Definition wstep (R : rules) (c : cfg) (x : wst) (o : wop) : wst * wobs :=
+  match o with
+  | WSel o => let r := step R c (w_sel x) o in
+              ({| w_sel := fst r; w_cls := w_cls x; w_top := w_top x; w_caps := w_caps x |}, WSelObs (snd r))
+  | WDynamic t => ({| w_sel := w_sel x; w_cls := cur (w_sel x) t; w_top := w_top x; w_caps := w_caps x |}, WNone)
+  | WCapture t top => ({| w_sel := w_sel x; w_cls := w_cls x; w_top := w_top x;
+                          w_caps := w_caps x ++ [if top then w_top x else w_cls x] |}, WNone)
+  | WUnwrapCap t k => (x, match nth_error (w_caps x) k with Some b => WRan b | None => WErr end)
+  | WUnwrap t top => (x, WRan (if top then w_top x else w_cls x))
+  | WCall t top => (x, WRan (cur (w_sel x) t))
+  end.
+Definition wnxt R c x o : wst := fst (wstep R c x o).
+Definition wout R c x o : wobs := snd (wstep R c x o).
+Definition wrun R c (x : wst) (h : list wop) : wst := fold_left (wnxt R c) h x.
+Fixpoint wtrace R c (x : wst) (h : list wop) : list wobs :=
+  match h with [] => [] | o :: h' => wout R c x o :: wtrace R c (wnxt R c x o) h' end.
+Definition no_wdynamic (h : list wop) : Prop := forall t, ~ In (WDynamic t) h.
+Definition winit (own0 : tid -> option inst) : wst :=
+  {| w_sel := init own0; w_cls := Named 0; w_top := Named 0; w_caps := [] |}.
